@@ -147,7 +147,7 @@ def gen_table_case(rng):
     a1 = {k: rng.randint(1, 9) for k in rng.sample(['x', 'y', 'z'], rng.randint(0, 3))}
     a2 = {k: rng.randint(11, 19) for k in rng.sample(['x', 'y', 'w'], rng.randint(0, 3))}
     kind = rng.choice(['call', 'bind'])
-    row = rng.choice(['mapping', 'list', 'string', 'new_target', 'new_target_merge', 'same_target'])
+    row = rng.choice(['mapping', 'list', 'string', 'new_target', 'new_target_merge', 'same_target', 'new_target_weaker', 'new_target_onto_force'])
     fmt = lambda d: '{' + ', '.join(f'{k}: {v}' for k, v in d.items()) + '}'
     older = f'{{f: !{kind}:{t1} {fmt(a1)}, k: 0}}'
     if row == 'mapping':
@@ -159,6 +159,12 @@ def gen_table_case(rng):
         newer, exp = f'{{f: {t2}}}', (t2, {})
     elif row == 'new_target':
         newer, exp = f'{{f: !{kind}:{t2} {fmt(a2)}}}', (t2, a2)
+    elif row == 'new_target_weaker':
+        # a function node of LOWER priority with another target loses the meeting as a whole: target and arguments of the existing node stay
+        newer, exp = f"{{f: !{kind}:{t2}{{{{'priority': -1}}}} {fmt(a2)}}}", (t1, a1)
+    elif row == 'new_target_onto_force':
+        older = f"{{f: !{kind}:{t1}{{{{'priority': 1}}}} {fmt(a1)}, k: 0}}"
+        newer, exp = f'{{f: !{kind}:{t2} {fmt(a2)}}}', (t1, a1)
     elif row == 'new_target_merge':
         newer, exp = f"{{f: !{kind}:{t2}{{{{'delete': False}}}} {fmt(a2)}}}", (t2, {**a1, **a2})
     else:
